@@ -91,9 +91,35 @@ def make_net(name):
         net.ext_grid["min_p_mw"], net.ext_grid["max_p_mw"] = -10., 10.
         net.ext_grid["min_q_mvar"], net.ext_grid["max_q_mvar"] = -10., 10.
         pp.create_poly_cost(net, 0, "ext_grid", 2.)
-        pp.create_poly_cost(net, 0, "gen", 1., cp2_eur_per_mw2=0.1)
+        pp.create_poly_cost(net, 0, "gen", 1.)
         pp.create_poly_cost(net, 0, "sgen", 0.5)
         pp.create_pwl_cost(net, 1, "load", [[0., 0.4, -1.]])
+        return net
+    if name == "R3opfq":          # quadratic costs only, one element with NaN controllable, a storage
+        net = make_net("R3opf")
+        net.pwl_cost.drop(net.pwl_cost.index, inplace=True)
+        net.poly_cost.at[1, "cp2_eur_per_mw2"] = 0.1
+        pp.create_gen(net, 1, 0.1, 1.0, controllable=np.nan, min_q_mvar=-1, max_q_mvar=1, min_p_mw=0, max_p_mw=1)
+        pp.create_storage(net, 2, 0.1, 1., controllable=np.nan)
+        return net
+    if name == "R3shnan":         # shunt whose vn_kv is left NaN by the user
+        net = na.base("R3")
+        pp.create_shunt(net, 2, -0.2, 0.01)
+        pp.create_shunt(net, 1, 0.1, 0.0)
+        net.shunt["vn_kv"] = net.shunt["vn_kv"].astype(float)
+        net.shunt.at[1, "vn_kv"] = np.nan
+        return net
+    if name == "R3qcap":          # generator with a reactive capability curve (limits looked up per calculation)
+        from pandapower.control.util.auxiliary import create_q_capability_characteristics_object
+        net = na.build({"base": "R3", "devs": [["gen", 2, 1.0, 1.01, "wide", False, True], ["sgen", 3, 0.5, 0.1, 1., True]]})
+        net["q_capability_curve_table"] = pd.DataFrame(
+            {"id_q_capability_curve": [0] * 5, "p_mw": [-2., -1., 0., 1., 2.], "q_min_mvar": [-0.01, -0.5, -0.8, -0.3, -0.01],
+             "q_max_mvar": [0.01, 0.5, 0.8, 0.2, 0.01]})
+        net.gen["id_q_capability_characteristic"] = pd.array([0], dtype="Int64")
+        net.gen["curve_style"] = "straightLineYValues"
+        net.gen["reactive_capability_curve"] = True
+        net.gen.at[0, "min_q_mvar"], net.gen.at[0, "max_q_mvar"] = -3., 50.
+        create_q_capability_characteristics_object(net)
         return net
     if name == "R3opfdc":
         net = make_net("R3opf")
@@ -226,6 +252,9 @@ PAIRS_QUICK = (
     [("R3sh", c, "none") for c in ["runpp", "rundcpp"]] +
     [("R3x", c, "none") for c in ["runpp", "runpp_nols", "rundcpp", "sc3max", "runpp_bfsw"]] +
     [("R3opf", c, "none") for c in ["runopp", "rundcopp"]] +
+    [("R3opfq", c, "none") for c in ["runopp", "rundcopp", "runpp"]] +
+    [("R3shnan", c, "none") for c in ["runpp", "rundcpp", "sc3max", "runpp_3ph"]] +
+    [("R3qcap", c, "none") for c in ["runpp", "runpp_qlim", "rundcpp"]] +
     [("R3opfdc", c, "none") for c in ["runopp", "rundcopp", "runpp"]] +
     [("R3se", "estimate", "none")] +
     [("T33ph", "runpp_3ph", "none"), ("T33ph", "sc1", "none")] +
@@ -385,6 +414,10 @@ def run_point(task):
             toks.append("has_dcline")
         if task["calc"] in ("sc1",):
             toks.append("fault=1ph")
+        if kind == "value_changed":
+            toks.append("col=" + det.split("[")[0])
+            if "nan) ->" in det:
+                toks.append("was_nan")
         vs.append(core.violation(kind, {"table": tab, "what": det, "outcome": oc,
                                         "crash_point": task["expect"], "event": task["k"]}, tokens=toks,
                                  klass="%s/%s/%s" % (task["calc"], tab, "raise" if oc != "ok" else "return")))
